@@ -20,6 +20,12 @@ class Opaque:
     def __init__(self, name):
         self.name = name
 
+    def sym_call(self, I, args, kw):
+        # only side-effect-free library objects whose results never reach a contract
+        if self.name.startswith(("logging.", "logger", "typing.", "TypeVar")):
+            return Opaque(self.name + "()")
+        raise Unsupported("call of unmodelled %s" % self.name)
+
     def __repr__(self):
         return "<opaque %s>" % self.name
 
@@ -109,6 +115,13 @@ def binop(I, op, a, b, inplace=False):
             if not isinstance(b, int) or b == 0:
                 if I.decide(cmp_op("==", b, 0), "div-zero"):
                     I.raise_("ZeroDivisionError", "integer division or modulo by zero")
+            if not isinstance(b, int):
+                # symbolic divisor: split the small quotients off so the terms stay linear
+                if I.decide(cmp_op(">", b, 0), "divisor-positive"):
+                    if I.decide(b_and(cmp_op(">=", a, 0), cmp_op("<", a, b)), "quotient==0"):
+                        return 0 if t is ast.FloorDiv else a
+                    if I.decide(b_and(cmp_op(">=", a, b), cmp_op("<", a, int_mul(2, b))), "quotient==1"):
+                        return 1 if t is ast.FloorDiv else int_sub(a, b)
             return int_floordiv(a, b) if t is ast.FloorDiv else int_mod(a, b)
         if t is ast.LShift:
             return int_shl(a, b)
@@ -1676,8 +1689,18 @@ def make_stub_modules(I):
     m.ns["queues"] = q
     m.ns["Queue"] = Q
 
-    for n in ["os", "glob", "random", "cmd", "readline", "sys", "traceback", "pathlib", "json", "ast"]:
+    for n in ["os", "glob", "readline", "sys", "traceback", "pathlib", "json", "ast"]:
         mod(n)
+    m = mod("cmd")
+    m.ns["Cmd"] = ClassObj("Cmd", [B["object"]], {}, m, "cmd.Cmd")
+    m = mod("random")
+
+    def rnd(I_, args, kw):
+        r = I_.ctx.fresh_real("random")
+        I_.ctx.add(z3.And(r.e >= 0, r.e < 1))
+        return r
+    m.ns["random"] = NativeFn("random.random", rnd)
+    m.ns["seed"] = NativeFn("random.seed", lambda I_, a, k: None)
     return S
 
 
